@@ -315,7 +315,7 @@ package ast
 //@   ensures forall m map[string]*RuleEntry, k string :: m != e.RuleEntries ==> has(m, k) == old(has(m, k)) && m[k] == old(m[k])
 
 //@ func (g *Grl) ReceiveRuleEntry(entry) (err)
-//@   serves C16
+//@   serves C16 C17 C20
 //@   requires g != nil && entry != nil && GrlInv(g)
 //@   opt alloc=1
 //@   nopanic
@@ -324,6 +324,10 @@ package ast
 //@   ensures !old(has(g.RuleEntries, entry.RuleName)) ==> err == nil && has(g.RuleEntries, entry.RuleName) && g.RuleEntries[entry.RuleName] == entry
 //@        && (forall k string :: k != entry.RuleName ==> has(g.RuleEntries, k) == old(has(g.RuleEntries, k)) && (has(g.RuleEntries, k) ==> g.RuleEntries[k] == old(g.RuleEntries[k])))
 //@   ensures GrlInv(g)
+//@   ensures others: forall m map[string]*RuleEntry, k string :: m != g.RuleEntries ==> has(m, k) == old(has(m, k)) && m[k] == old(m[k])
+//@   ensures samemap: old(g.RuleEntries) != nil ==> g.RuleEntries == old(g.RuleEntries)
+//@   ensures newmap: old(g.RuleEntries) == nil ==> fresh(g.RuleEntries)
+//@   ensures othergrls: forall h *Grl :: h != g ==> h.RuleEntries == old(h.RuleEntries)
 
 // removal: the entry is marked Deleted, its name becomes free, EVERY OTHER ENTRY stays filed under its own name
 //@ func (e *KnowledgeBase) RemoveRuleEntry(name) ()
@@ -518,9 +522,10 @@ package ast
 //@ macro func idxJustE(m *WorkingMemory) bool { return forall v *Variable, x *Expression :: inExprIdx(m, v, x) ==> (exists vs string, xs string :: has(m.variableSnapshotMap, vs) && m.variableSnapshotMap[vs] == v && has(m.expressionSnapshotMap, xs) && m.expressionSnapshotMap[xs] == x && str_contains(xs, vs)) }
 //@ macro func idxJustA(m *WorkingMemory) bool { return forall v *Variable, a *ExpressionAtom :: inAtomIdx(m, v, a) ==> (exists vs string, as string :: has(m.variableSnapshotMap, vs) && m.variableSnapshotMap[vs] == v && has(m.expressionAtomSnapshotMap, as) && m.expressionAtomSnapshotMap[as] == a && str_contains(as, vs)) }
 //@ func (workingMem *WorkingMemory) IndexVariables() ()
-//@   serves C01 C02 C13
+//@   serves C01 C02 C13 C17 C20
 //@   opt alloc=1
 //@   requires workingMem != nil
+//@   nopanic
 //@   modifies WorkingMemory.expressionVariableMap, WorkingMemory.expressionAtomVariableMap, map[*Variable][]*Expression, map[*Variable][]*ExpressionAtom, alloc
 //@   ensures[C01,C02] complete: idxComplete(workingMem)
 //@   ensures[C13] exactE: idxJustE(workingMem)
@@ -1381,3 +1386,263 @@ package ast
 //@   checks[C07] format: s == "AL(" + alSnap(e.Arguments, len(e.Arguments)) + ")"
 // the 15 operator spellings are pairwise different and none is a prefix of "ER(" (LL(1) disjointness, ground)
 //@ lemma[C07] opsym_injective: forall a int, b int :: 0 <= a && a <= 14 && 0 <= b && b <= 14 && opSym(a) == opSym(b) ==> a == b
+
+// ---- generated by /verif/gen/gen_accept_contracts.py: Accept*/Receive* implementers (thin: no panic, frame) ----
+//@ func (e *ArgumentList) AcceptExpression(exp) (err)
+//@   serves C17 C20 C07
+//@   requires e != nil
+//@   nopanic
+//@   modifies ArgumentList.Arguments
+//@ func (e *ArrayMapSelector) AcceptExpression(exp) (err)
+//@   serves C17 C20 C07
+//@   requires e != nil
+//@   nopanic
+//@   modifies ArrayMapSelector.Expression
+//@ func (e *Assignment) AcceptExpression(exp) (err)
+//@   serves C17 C20 C07
+//@   requires e != nil
+//@   nopanic
+//@   modifies Assignment.Expression
+//@ func (e *Assignment) AcceptVariable(vari) (err)
+//@   serves C17 C20 C07
+//@   requires e != nil
+//@   nopanic
+//@   modifies Assignment.Variable
+//@ func (e *Constant) AcceptIntegerLiteral(fun) ()
+//@   serves C17 C20 C07
+//@   requires e != nil && fun != nil
+//@   nopanic
+//@   modifies Constant.Value
+//@ func (e *Constant) AcceptStringLiteral(fun) ()
+//@   serves C17 C20 C07
+//@   requires e != nil && fun != nil
+//@   nopanic
+//@   modifies Constant.Value
+//@ func (e *Constant) AcceptFloatLiteral(fun) ()
+//@   serves C17 C20 C07
+//@   requires e != nil && fun != nil
+//@   nopanic
+//@   modifies Constant.Value
+//@ func (e *Constant) AcceptBooleanLiteral(fun) ()
+//@   serves C17 C20 C07
+//@   requires e != nil && fun != nil
+//@   nopanic
+//@   modifies Constant.Value
+//@ func (e *Expression) AcceptExpression(exp) (err)
+//@   serves C17 C20 C07
+//@   requires e != nil
+//@   nopanic
+//@   modifies Expression.LeftExpression, Expression.RightExpression, Expression.SingleExpression
+//@ func (e *Expression) AcceptExpressionAtom(atom) (err)
+//@   serves C17 C20 C07
+//@   requires e != nil
+//@   nopanic
+//@   modifies Expression.ExpressionAtom
+//@ func (e *ExpressionAtom) AcceptMemberVariable(name) ()
+//@   serves C17 C20 C07
+//@   requires e != nil
+//@   nopanic
+//@   modifies ExpressionAtom.VariableName
+//@ func (e *ExpressionAtom) AcceptVariable(vari) (err)
+//@   serves C17 C20 C07
+//@   requires e != nil
+//@   nopanic
+//@   modifies ExpressionAtom.Variable
+//@ func (e *ExpressionAtom) AcceptFunctionCall(fun) (err)
+//@   serves C17 C20 C07
+//@   requires e != nil
+//@   nopanic
+//@   modifies ExpressionAtom.FunctionCall
+//@ func (e *ExpressionAtom) AcceptExpressionAtom(ea) (err)
+//@   serves C17 C20 C07
+//@   requires e != nil
+//@   nopanic
+//@   modifies ExpressionAtom.ExpressionAtom
+//@ func (e *ExpressionAtom) AcceptConstant(cons) (err)
+//@   serves C17 C20 C07
+//@   requires e != nil
+//@   nopanic
+//@   modifies ExpressionAtom.Constant
+//@ func (e *ExpressionAtom) AcceptArrayMapSelector(sel) (err)
+//@   serves C17 C20 C07
+//@   requires e != nil
+//@   nopanic
+//@   modifies ExpressionAtom.ArrayMapSelector
+//@ func (e *FunctionCall) AcceptArgumentList(argList) (err)
+//@   serves C17 C20 C07
+//@   requires e != nil
+//@   nopanic
+//@   modifies FunctionCall.ArgumentList
+//@ func (e *RuleEntry) AcceptSalience(salience) (err)
+//@   serves C17 C20 C07
+//@   requires e != nil && salience != nil
+//@   nopanic
+//@   modifies RuleEntry.Salience
+//@   ensures stored: err == nil && e.Salience == salience.SalienceValue
+//@ func (e *RuleEntry) AcceptWhenScope(when) (err)
+//@   serves C17 C20 C07
+//@   requires e != nil
+//@   nopanic
+//@   modifies RuleEntry.WhenScope
+//@ func (e *RuleEntry) AcceptThenScope(thenScope) (err)
+//@   serves C17 C20 C07
+//@   requires e != nil
+//@   nopanic
+//@   modifies RuleEntry.ThenScope
+//@ func (sal *Salience) AcceptIntegerLiteral(lit) ()
+//@   serves C17 C20 C07
+//@   requires sal != nil && lit != nil
+//@   panics_only_if lit.Integer < -2147483648 || lit.Integer > 2147483647
+//@   ensures stored: sal.SalienceValue == lit.Integer
+//@   modifies Salience.SalienceValue
+//@ func (e *ThenExpression) AcceptAssignment(assignment) (err)
+//@   serves C17 C20 C07
+//@   requires e != nil
+//@   nopanic
+//@   modifies ThenExpression.Assignment
+//@ func (e *ThenExpression) AcceptExpressionAtom(exp) (err)
+//@   serves C17 C20 C07
+//@   requires e != nil
+//@   nopanic
+//@   modifies ThenExpression.ExpressionAtom
+//@ func (e *ThenExpressionList) AcceptThenExpression(expr) (err)
+//@   serves C17 C20 C07
+//@   requires e != nil
+//@   nopanic
+//@   modifies ThenExpressionList.ThenExpressions
+//@ func (e *ThenScope) AcceptThenExpressionList(list) (err)
+//@   serves C17 C20 C07
+//@   requires e != nil
+//@   nopanic
+//@   modifies ThenScope.ThenExpressionList
+//@ func (e *Variable) AcceptMemberVariable(name) ()
+//@   serves C17 C20 C07
+//@   requires e != nil
+//@   nopanic
+//@   modifies Variable.Name
+//@ func (e *Variable) AcceptVariable(vari) (err)
+//@   serves C17 C20 C07
+//@   requires e != nil
+//@   nopanic
+//@   modifies Variable.Variable
+//@ func (e *Variable) AcceptArrayMapSelector(sel) (err)
+//@   serves C17 C20 C07
+//@   requires e != nil
+//@   nopanic
+//@   modifies Variable.ArrayMapSelector
+//@ func (e *WhenScope) AcceptExpression(exp) (err)
+//@   serves C17 C20 C07
+//@   requires e != nil
+//@   nopanic
+//@   modifies WhenScope.Expression
+
+// ---- node constructors used by the parser listener (thin: a fresh, non-nil node; nothing else changes) ----
+//@ func NewArgumentList() (r)
+//@   serves C17 C20 C07
+//@   opt alloc=1
+//@   nopanic
+//@   modifies alloc, fresh ArgumentList.*
+//@   ensures fresh(r) && r != nil
+//@ func NewArrayMapSelector() (r)
+//@   serves C17 C20 C07
+//@   opt alloc=1
+//@   nopanic
+//@   modifies alloc, fresh ArrayMapSelector.*
+//@   ensures fresh(r) && r != nil
+//@ func NewAssignment() (r)
+//@   serves C17 C20 C07
+//@   opt alloc=1
+//@   nopanic
+//@   modifies alloc, fresh Assignment.*
+//@   ensures fresh(r) && r != nil
+//@ func NewConstant() (r)
+//@   serves C17 C20 C07
+//@   opt alloc=1
+//@   nopanic
+//@   modifies alloc, fresh Constant.*
+//@   ensures fresh(r) && r != nil
+//@ func NewExpression() (r)
+//@   serves C17 C20 C07
+//@   opt alloc=1
+//@   nopanic
+//@   modifies alloc, fresh Expression.*
+//@   ensures fresh(r) && r != nil
+//@ func NewExpressionAtom() (r)
+//@   serves C17 C20 C07
+//@   opt alloc=1
+//@   nopanic
+//@   modifies alloc, fresh ExpressionAtom.*
+//@   ensures fresh(r) && r != nil
+//@ func NewFunctionCall() (r)
+//@   serves C17 C20 C07
+//@   opt alloc=1
+//@   nopanic
+//@   modifies alloc, fresh FunctionCall.*
+//@   ensures fresh(r) && r != nil
+//@ func NewGrl() (r)
+//@   serves C17 C20 C07
+//@   opt alloc=1
+//@   nopanic
+//@   modifies alloc, fresh Grl.*, fresh map[string]*RuleEntry
+//@   ensures fresh(r) && r != nil && r.RuleEntries != nil && fresh(r.RuleEntries) && (forall k string :: !has(r.RuleEntries, k))
+//@ func NewRuleEntry() (r)
+//@   serves C17 C20 C07
+//@   opt alloc=1
+//@   nopanic
+//@   modifies alloc, fresh RuleEntry.*
+//@   ensures fresh(r) && r != nil
+//@ func NewThenExpression() (r)
+//@   serves C17 C20 C07
+//@   opt alloc=1
+//@   nopanic
+//@   modifies alloc, fresh ThenExpression.*
+//@   ensures fresh(r) && r != nil
+//@ func NewThenExpressionList() (r)
+//@   serves C17 C20 C07
+//@   opt alloc=1
+//@   nopanic
+//@   modifies alloc, fresh ThenExpressionList.*
+//@   ensures fresh(r) && r != nil
+//@ func NewThenScope() (r)
+//@   serves C17 C20 C07
+//@   opt alloc=1
+//@   nopanic
+//@   modifies alloc, fresh ThenScope.*
+//@   ensures fresh(r) && r != nil
+//@ func NewVariable() (r)
+//@   serves C17 C20 C07
+//@   opt alloc=1
+//@   nopanic
+//@   modifies alloc, fresh Variable.*
+//@   ensures fresh(r) && r != nil
+//@ func NewWhenScope() (r)
+//@   serves C17 C20 C07
+//@   opt alloc=1
+//@   nopanic
+//@   modifies alloc, fresh WhenScope.*
+//@   ensures fresh(r) && r != nil
+//@ func NewSalience(val) (r)
+//@   serves C17 C20
+//@   opt alloc=1
+//@   nopanic
+//@   modifies alloc, fresh Salience.*
+//@   ensures fresh(r) && r != nil && r.SalienceValue == val
+
+// ---- builder support (C17, C20): a knowledge base the builder may be pointed at; the library only holds such ----
+//@ macro func kbWF(kb *KnowledgeBase) bool { return kb != nil && allocated(kb) && kb.WorkingMemory != nil && allocated(kb.WorkingMemory) && kb.WorkingMemory.expressionSnapshotMap != nil && kb.WorkingMemory.expressionAtomSnapshotMap != nil && kb.WorkingMemory.variableSnapshotMap != nil
+//@      && KBInv(kb) && allocated(kb.RuleEntries) && (forall k string {kb.RuleEntries[k]} :: has(kb.RuleEntries, k) ==> allocated(kb.RuleEntries[k])) }
+//@ macro func libWF(lib *KnowledgeLibrary) bool { return lib != nil && lib.Library != nil && (forall key string {lib.Library[key]} :: has(lib.Library, key) ==> kbWF(lib.Library[key])) }
+//@ func NewWorkingMemory(name, version) (r)
+//@   serves C17 C20
+//@   opt alloc=1
+//@   nopanic
+//@   modifies alloc, fresh WorkingMemory.*, fresh map[string]*Variable, fresh map[string]*Expression, fresh map[string]*ExpressionAtom, fresh map[*Variable][]*Expression, fresh map[*Variable][]*ExpressionAtom
+//@   ensures fresh(r) && r != nil && r.expressionSnapshotMap != nil && r.expressionAtomSnapshotMap != nil && r.variableSnapshotMap != nil
+//@ func (lib *KnowledgeLibrary) GetKnowledgeBase(name, version) (r)
+//@   serves C17 C20
+//@   opt alloc=1
+//@   requires libWF(lib)
+//@   nopanic
+//@   modifies alloc, map[string]*KnowledgeBase, fresh KnowledgeBase.*, fresh WorkingMemory.*, fresh map[string]*RuleEntry, fresh map[string]*Variable, fresh map[string]*Expression, fresh map[string]*ExpressionAtom, fresh map[*Variable][]*Expression, fresh map[*Variable][]*ExpressionAtom
+//@   ensures found: kbWF(r)
+//@   ensures libkept: libWF(lib)
